@@ -137,6 +137,8 @@ impl Command for SystemCommand
 {
     fn apply(self, world: &mut World)
     {
+        #[cfg(feature = "verif")]
+        crate::verif::emit(world, crate::verif::RunnerEvent::Apply{ target: *self, kind: crate::verif::CommandKind::System });
         syscommand_runner(world, self, SystemCommandSetup::default(), SystemCommandCleanup::default());
     }
 }
@@ -169,6 +171,11 @@ impl Command for EventCommand
 {
     fn apply(self, world: &mut World)
     {
+        #[cfg(feature = "verif")]
+        crate::verif::emit(world, crate::verif::RunnerEvent::Apply{
+            target: *self.system,
+            kind: crate::verif::CommandKind::SystemEvent{ data_entity: self.data_entity }
+        });
         world.resource_mut::<SystemEventAccessTracker>().prepare(self.system, self.data_entity);
         syscommand_runner(
             world,
@@ -240,6 +247,8 @@ impl Command for ReactionCommand
 {
     fn apply(self, world: &mut World)
     {
+        #[cfg(feature = "verif")]
+        self.verif_emit_apply(world);
         match self
         {
             Self::Resource{ reactor } =>
@@ -290,6 +299,38 @@ impl Command for ReactionCommand
                 );
             }
         }
+    }
+}
+
+//-------------------------------------------------------------------------------------------------------------------
+
+#[cfg(feature = "verif")]
+impl ReactionCommand
+{
+    fn verif_emit_apply(&self, world: &mut World)
+    {
+        use crate::verif::CommandKind;
+        let (target, kind) = match self
+        {
+            Self::Resource{ reactor } => (**reactor, CommandKind::Resource),
+            Self::EntityReaction{ reaction_source, reaction_type, reactor } =>
+            {
+                let source = *reaction_source;
+                let kind = match reaction_type
+                {
+                    EntityReactionType::Insertion(_) => CommandKind::EntityInsertion{ source },
+                    EntityReactionType::Mutation(_)  => CommandKind::EntityMutation{ source },
+                    EntityReactionType::Removal(_)   => CommandKind::EntityRemoval{ source },
+                    EntityReactionType::Event(_)     => CommandKind::EntityMutation{ source },
+                };
+                (**reactor, kind)
+            }
+            Self::Despawn{ reaction_source, reactor, .. } => (**reactor, CommandKind::Despawn{ source: *reaction_source }),
+            Self::EntityEvent{ target, data_entity, reactor } =>
+                (**reactor, CommandKind::EntityEvent{ target: *target, data_entity: *data_entity }),
+            Self::BroadcastEvent{ data_entity, reactor } => (**reactor, CommandKind::Broadcast{ data_entity: *data_entity }),
+        };
+        crate::verif::emit(world, crate::verif::RunnerEvent::Apply{ target, kind });
     }
 }
 
